@@ -48,7 +48,7 @@ def worker():
 def run_one(prop, base_seed, i, want_sample=False):
     W = worker()
     rng = histsim.history_rng(base_seed, prop, i)
-    cfg, ops = gen.gen_history(rng, prop)
+    cfg, ops = gen.gen_history(rng, prop, procs.TIER)
     probes = {}
     q0, h0 = W.oracle.queries, W.oracle.hits
     # every 4th run is judged by two oracle interpreters (hash seeds 77 and 4242) that must agree
